@@ -8,7 +8,7 @@ from genjax.adev import Dual, add_cost, baseline, expectation
 from genjax._src.adev.primitives import REINFORCE
 from tensorflow_probability.substrates import jax as tfp
 
-from verif.engine import Ob
+from verif.engine import Ob, with_distinct_draw_keys
 
 tfd = tfp.distributions
 
@@ -185,6 +185,33 @@ def obligations(tier, seed):
     obs.append(Ob("C29/sequence/flip_enum;normal_reparam", fseq, (KEY, F(0.3), F(1.0)), assume=unit, mode="exact", timeout_s=30,
                   note="enumerated flip followed by a reparameterised normal in each continuation: exact outer expectation of the pathwise inner estimate"))
 
+    # two reparameterised draws in sequence: pathwise derivative, and the two noise draws are independent (distinct keys)
+    def fseq2(key, th, t):
+        def body(th):
+            x = adev.normal_reparam(th, 0.5)
+            z = adev.normal_reparam(x * th, 0.7)
+            return x * z + th
+
+        with record_noise("normal") as rec:
+            d = expectation(body).jvp_estimate(key, Dual(th, t))
+        assert len(rec) == 2, len(rec)
+        e1, e2 = rec
+
+        def path(th):
+            x = th + 0.5 * e1
+            z = x * th + 0.7 * e2
+            return x * z + th
+
+        return (d.primal, d.tangent), jax.jvp(path, (th,), (t,))
+
+    def replay_seq2(args):
+        with record_noise("normal") as rec:
+            expectation(lambda th: adev.normal_reparam(adev.normal_reparam(th, 0.5) * th, 0.7)).jvp_estimate(args[0], Dual(args[1], args[2]))
+        return bool(jnp.all(rec[0] == rec[1])), f"noise draws {jnp.ravel(rec[0])} and {jnp.ravel(rec[1])}"
+
+    obs.append(Ob("C29/sequence/normal_reparam;normal_reparam", fseq2, (KEY, F(0.3), F(1.0)), mode="exact", timeout_s=30, custom=with_distinct_draw_keys(("normal",), 2), replay=replay_seq2,
+                  note="two reparameterised draws: pathwise derivative at the drawn noises, and the two draws use distinct PRNG keys (independent noise)"))
+
     # ---- (C) score-function estimators
     def stub(prim, value):
         return REINFORCE(lambda key, *a: value, prim.differentiable_logpdf)
@@ -195,9 +222,9 @@ def obligations(tier, seed):
                 outs = []
                 for val in (True, False):
                     st = stub(adev.flip_reinforce, jnp.array(val))
-                    if base:
-                        prog = expectation(lambda th, bl: body(baseline(st)(bl, th), th))
-                        d = prog.jvp_estimate(key, (Dual(th, t), Dual(bl, jnp.zeros_like(bl))))
+                    if base:  # the baseline itself depends on the differentiated parameter (non-zero tangent)
+                        prog = expectation(lambda th: body(baseline(st)(bl * th + 1.0, th), th))
+                        d = prog.jvp_estimate(key, Dual(th, t))
                     else:
                         prog = expectation(lambda th: body(st(th), th))
                         d = prog.jvp_estimate(key, Dual(th, t))
